@@ -100,7 +100,7 @@ static lzma_ret step(lzma_stream *s, size_t upto, lzma_action a, obs *o, int pro
 }
 static int enc_init(lzma_stream *s, int threads) {
 	if (!bsz_now) bsz_now = (size_t)R->bsz;
-	lzma_mt mt = { .threads = threads, .block_size = bsz_now, .filters = flt, .check = LZMA_CHECK_CRC32, .timeout = R->timeout };
+	lzma_mt mt = { .threads = threads, .block_size = bsz_now, .filters = flt, .check = R->input == IN_RANDOM ? LZMA_CHECK_SHA256 : LZMA_CHECK_CRC32, .timeout = R->timeout };	// the rows with random input use SHA-256: several workers hash at the same time
 	s->allocator = &ALLOC; threads_now = threads;
 	return lzma_stream_encoder_mt(s, &mt) == LZMA_OK;
 }
